@@ -196,6 +196,17 @@ def table_entries(ctx: Ctx, rule="R1.2"):
             if not (isinstance(s_, ast.Assign) and isinstance(s_.targets[0], ast.Subscript) and attr_chain(s_.targets[0].value) == em.frames_attr):
                 continue
             n += 1
+            # inside the per-anchor loop the entry is rewritten for every anchor: nothing but the anchor test guards it
+            loop_ = [a_ for a_ in ancestors(s_, parents_map(g.node)) if isinstance(a_, ast.For)]
+            if loop_:
+                from ..cfg import cguards_of as _cg
+                gl_ = _cg(s_, parents_map(loop_[0]))
+                extra_ = [t_ for t_, p_ in gl_ if "len(" not in t_ or ".bonds" not in t_]
+                if extra_:
+                    ctx.ob(rule, g, s_, False, "the frame of every anchor is recomputed from the argument on every call -- here the entry is "
+                           "rewritten only under `%s`: a frame left by an earlier call can survive (its axes depend on the neighbours too)"
+                           % " and ".join(extra_)[:120], node=s_)
+                    continue
             v = _resolve_local(g.node, s_.value)
             if isinstance(v, ast.Call) and call_name(v) == fbn:
                 ctx.ob(rule, g, s_, True, "the entry stored is the frame builder's result (axes and the origin they were built about)", node=s_)
